@@ -1,6 +1,6 @@
 """Per-property check definitions: workloads, must-observe rules, evidence."""
 from . import core
-from .core import Check, run_workload, NCPU, HAVE_NATIVE
+from .core import Check, run_workload, run_parallel, NCPU, HAVE_NATIVE
 
 Q, T = "quick", "thorough"
 
@@ -20,13 +20,13 @@ def C01(tier):
     samples = sz(tier, 2_000_000, 60_000_000)
     count = per_shard(E + samples)
     p = [E]
-    runs = [run_workload(c, "scalar-rel", "rel", "drv_scalar", "c01", count, params=p)]
+    runs = [c.spec("scalar-rel", "rel", "drv_scalar", "c01", count, params=p)]
     few = sz(tier, [0, 5, 10, 15], [0, 5])
-    runs.append(run_workload(c, "scalar-dbg", "dbg", "drv_scalar", "c01", count, shards=few, params=p))
-    runs.append(run_workload(c, "scalar-asan", "asan", "drv_scalar", "c01", count, shards=few, params=p))
-    runs.append(run_workload(c, "scalar-clang", "clang", "drv_scalar", "c01", count, shards=sz(tier, few, list(range(8))), params=p))
+    runs.append(c.spec("scalar-dbg", "dbg", "drv_scalar", "c01", count, shards=few, params=p))
+    runs.append(c.spec("scalar-asan", "asan", "drv_scalar", "c01", count, shards=few, params=p))
+    runs.append(c.spec("scalar-clang", "clang", "drv_scalar", "c01", count, shards=sz(tier, few, list(range(8))), params=p))
     if HAVE_NATIVE:
-        runs.append(run_workload(c, "scalar-native", "native", "drv_scalar", "c01", count, shards=sz(tier, few, list(range(8))), params=p))
+        runs.append(c.spec("scalar-native", "native", "drv_scalar", "c01", count, shards=sz(tier, few, list(range(8))), params=p))
     else:
         c.notes.append("native (-march=native) configuration skipped: cpu lacks avx2+avx512vl+f16c")
     c.compare_digests(runs, "encoded bytes of every value")
@@ -59,9 +59,9 @@ def C04(tier):
     samples = sz(tier, 2_000_000, 60_000_000)
     count = per_shard(E + samples)
     p = [E]
-    run_workload(c, "format-rel", "rel", "drv_scalar", "c04", count, params=p, env={"VERIF_REPO": core.REPO})
-    run_workload(c, "format-asan", "asan", "drv_scalar", "c04", count, shards=[0, 7], params=p, env={"VERIF_REPO": core.REPO})
-    run_workload(c, "format-dbg", "dbg", "drv_scalar", "c04", count, shards=[0, 3], params=p, env={"VERIF_REPO": core.REPO})
+    c.spec("format-rel", "rel", "drv_scalar", "c04", count, params=p, env={"VERIF_REPO": core.REPO})
+    c.spec("format-asan", "asan", "drv_scalar", "c04", count, shards=[0, 7], params=p, env={"VERIF_REPO": core.REPO})
+    c.spec("format-dbg", "dbg", "drv_scalar", "c04", count, shards=[0, 3], params=p, env={"VERIF_REPO": core.REPO})
     fams = ["tagged", "chained", "chainedSimple", "split", "splitFull", "splitFullNoZero", "splitFull16"]
     for f in fams:
         lo = 2 if f == "splitFull16" else 1
@@ -89,9 +89,9 @@ def C05(tier):
     K = sz(tier, 4096, 16384)
     count = per_shard(E + mix)
     p = [E, K]
-    run_workload(c, "order-rel", "rel", "drv_scalar", "c05", count, params=p)
-    run_workload(c, "order-asan", "asan", "drv_scalar", "c05", count, shards=[1, 9], params=p)
-    run_workload(c, "order-dbg", "dbg", "drv_scalar", "c05", count, shards=[2], params=p)
+    c.spec("order-rel", "rel", "drv_scalar", "c05", count, params=p)
+    c.spec("order-asan", "asan", "drv_scalar", "c05", count, shards=[1, 9], params=p)
+    c.spec("order-dbg", "dbg", "drv_scalar", "c05", count, shards=[2], params=p)
     c.require("perturbation_pairs", c.stat("c05_perturbation_pairs"), 10000)
     c.require("scalar_sorts", c.stat("c05_scalar_sorts"), 100)
     c.require("tuple_sorts", c.stat("c05_tuple_sorts"), 300)
@@ -108,10 +108,10 @@ def C12(tier):
     c = Check("C12", tier)
     n = sz(tier, 4_000_000, 200_000_000)
     count = per_shard(n)
-    run_workload(c, "add-rel", "rel", "drv_scalar", "c12", count)
-    run_workload(c, "add-asan", "asan", "drv_scalar", "c12", count, shards=sz(tier, [0, 1, 2, 3], [0, 1]))
-    run_workload(c, "add-dbg", "dbg", "drv_scalar", "c12", count, shards=[4])
-    run_workload(c, "add-clang", "clang", "drv_scalar", "c12", count, shards=[5, 6])
+    c.spec("add-rel", "rel", "drv_scalar", "c12", count)
+    c.spec("add-asan", "asan", "drv_scalar", "c12", count, shards=sz(tier, [0, 1, 2, 3], [0, 1]))
+    c.spec("add-dbg", "dbg", "drv_scalar", "c12", count, shards=[4])
+    c.spec("add-clang", "clang", "drv_scalar", "c12", count, shards=[5, 6])
     for f in ("taggedNoGrow", "externalNoGrow"):
         for o in ("overflow", "refused", "samewidth", "widthchanged"):
             c.require("outcome.%s.%s" % (f, o), c.stat("outcome.%s.%s" % (f, o)), 10000)
@@ -139,14 +139,14 @@ def C02(tier):
     n = sz(tier, 23 * 40_000, 23 * 1_000_000)
     count = per_shard(n)
     p = [4097, sz(tier, 4000, 4000)]
-    runs = [run_workload(c, "array-rel", "rel", "drv_array", "c02", count, params=p)]
+    runs = [c.spec("array-rel", "rel", "drv_array", "c02", count, params=p)]
     if HAVE_NATIVE:
-        runs.append(run_workload(c, "array-native", "native", "drv_array", "c02", count, params=p))
+        runs.append(c.spec("array-native", "native", "drv_array", "c02", count, params=p))
     else:
         c.notes.append("SIMD (-march=native) configuration skipped: cpu lacks avx2+avx512vl")
-    runs.append(run_workload(c, "array-asan", "asan", "drv_array", "c02", count, shards=sz(tier, [0, 1, 2, 3], [0, 1, 2, 3]), params=p))
-    runs.append(run_workload(c, "array-dbg", "dbg", "drv_array", "c02", count, shards=[4, 5], params=p))
-    runs.append(run_workload(c, "array-clang", "clang", "drv_array", "c02", count, shards=[6, 7], params=p))
+    runs.append(c.spec("array-asan", "asan", "drv_array", "c02", count, shards=sz(tier, [0, 1, 2, 3], [0, 1, 2, 3]), params=p))
+    runs.append(c.spec("array-dbg", "dbg", "drv_array", "c02", count, shards=[4, 5], params=p))
+    runs.append(c.spec("array-clang", "clang", "drv_array", "c02", count, shards=[6, 7], params=p))
     c.compare_digests(runs, "encoded bytes of every array (scalar vs SIMD-enabled vs sanitised builds)")
     for name in ARRAY_CODECS:
         c.require("codec." + name, c.stat("codec." + name), 1000)
@@ -167,12 +167,12 @@ def C03(tier):
     n = sz(tier, 30 * 20_000, 30 * 700_000)
     count = per_shard(n)
     p = [2000, sz(tier, 3000, 1500)]
-    run_workload(c, "bound-asan", "asan", "drv_array", "c03", count, shards=sz(tier, list(range(8)), list(range(8))), params=p)
-    run_workload(c, "bound-rel", "rel", "drv_array", "c03", count, params=p)
-    run_workload(c, "bound-dbg", "dbg", "drv_array", "c03", count, shards=[8, 9], params=p)
+    c.spec("bound-asan", "asan", "drv_array", "c03", count, shards=sz(tier, list(range(8)), list(range(8))), params=p)
+    c.spec("bound-rel", "rel", "drv_array", "c03", count, params=p)
+    c.spec("bound-dbg", "dbg", "drv_array", "c03", count, shards=[8, 9], params=p)
     nf = sz(tier, 300_000, 10_000_000)
-    run_workload(c, "float-bound-asan", "asan", "drv_float", "c03", per_shard(nf), shards=[0, 1, 2, 3])
-    run_workload(c, "float-bound-rel", "rel", "drv_float", "c03", per_shard(nf))
+    c.spec("float-bound-asan", "asan", "drv_float", "c03", per_shard(nf), shards=[0, 1, 2, 3])
+    c.spec("float-bound-rel", "rel", "drv_float", "c03", per_shard(nf))
     for name in ARRAY_CODECS + ADAPTIVE_CODECS:
         c.require("codec." + name, c.stat("codec." + name), 500)
     # the bound must actually be approached: per sizing function, max written/advertised >= 0.9
@@ -199,9 +199,9 @@ def C13(tier):
     c = Check("C13", tier)
     n = sz(tier, 20 * 15_000, 20 * 600_000)
     count = per_shard(n)
-    run_workload(c, "cap-asan", "asan", "drv_array", "c13", count, shards=sz(tier, list(range(8)), list(range(8))), params=[1000])
-    run_workload(c, "cap-asanR", "asanR", "drv_array", "c13", count, shards=[8, 9, 10, 11], params=[1000])
-    run_workload(c, "cap-rel", "rel", "drv_array", "c13", count, params=[1000])
+    c.spec("cap-asan", "asan", "drv_array", "c13", count, shards=sz(tier, list(range(8)), list(range(8))), params=[1000])
+    c.spec("cap-asanR", "asanR", "drv_array", "c13", count, shards=[8, 9, 10, 11], params=[1000])
+    c.spec("cap-rel", "rel", "drv_array", "c13", count, params=[1000])
     capcodecs = ["for", "for.batch", "group", "dict.into", "rle", "rle.header", "elias.gamma", "elias.delta", "bp128.32", "bp128.64",
                  "bp128.delta32", "bp128.delta64", "adaptive.DELTA", "adaptive.FOR", "adaptive.PFOR", "adaptive.DICT",
                  "adaptive.BITMAP", "adaptive.TAGGED"]
@@ -222,12 +222,12 @@ def C16(tier):
     n = sz(tier, 27 * 30_000, 27 * 800_000)
     count = per_shard(n)
     p = [4097, 4000]
-    run_workload(c, "meta-rel", "rel", "drv_array", "c16", count, params=p)
-    run_workload(c, "meta-asan", "asan", "drv_array", "c16", count, shards=[0, 1, 2, 3], params=p)
-    run_workload(c, "meta-msan", "msan", "drv_array", "c16", count, shards=[4, 5], params=p)
+    c.spec("meta-rel", "rel", "drv_array", "c16", count, params=p)
+    c.spec("meta-asan", "asan", "drv_array", "c16", count, shards=[0, 1, 2, 3], params=p)
+    c.spec("meta-msan", "msan", "drv_array", "c16", count, shards=[4, 5], params=p)
     nf = sz(tier, 200_000, 5_000_000)
-    run_workload(c, "float-meta-rel", "rel", "drv_float", "c16", per_shard(nf))
-    run_workload(c, "float-meta-asan", "asan", "drv_float", "c16", per_shard(nf), shards=[0, 1])
+    c.spec("float-meta-rel", "rel", "drv_float", "c16", per_shard(nf))
+    c.spec("float-meta-asan", "asan", "drv_float", "c16", per_shard(nf), shards=[0, 1])
     c.require("facts_checked", c.stat("c16_facts_checked"), 1_000_000)
     for k in ("c16_pfor_no_exceptions", "c16_pfor_one_exception", "c16_pfor_many_exceptions"):
         c.require(k, c.stat(k), 100)
@@ -245,11 +245,11 @@ def C06(tier):
     n = sz(tier, 60_000, 1_500_000)
     count = per_shard(n)
     p = [sz(tier, 1500, 4097), sz(tier, 2500, 1500), 0]
-    run_workload(c, "adaptive-rel", "rel", "drv_array", "c06", count, params=p, timeout=3000)
-    run_workload(c, "adaptive-asan", "asan", "drv_array", "c06", count, shards=sz(tier, [0, 1, 2, 3], [0, 1, 2, 3]), params=p, timeout=3000)
-    run_workload(c, "adaptive-dbg", "dbg", "drv_array", "c06", count, shards=[4], params=p, timeout=3000)
+    c.spec("adaptive-rel", "rel", "drv_array", "c06", count, params=p, timeout=3000)
+    c.spec("adaptive-asan", "asan", "drv_array", "c06", count, shards=sz(tier, [0, 1, 2, 3], [0, 1, 2, 3]), params=p, timeout=3000)
+    c.spec("adaptive-dbg", "dbg", "drv_array", "c06", count, shards=[4], params=p, timeout=3000)
     # payloads over 1 MiB: forced DICT on 1.2e6 few-unique values (and one automatic case in the thorough tier)
-    run_workload(c, "adaptive-huge", "rel", "drv_array", "c06", 1, nshards=2, shards=sz(tier, [0], [0, 1]), params=[100, 0, 1], timeout=3000)
+    c.spec("adaptive-huge", "rel", "drv_array", "c06", 1, nshards=2, shards=sz(tier, [0], [0, 1]), params=[100, 0, 1], timeout=3000)
     for leaf in ("DICT", "BITMAP", "DELTA", "PFOR", "FOR", "TAGGED"):
         tot = sum(c.stat("leaf.%s.%s" % (leaf, d)) for d in ("ascending", "descending", "unsorted"))
         c.require("leaf." + leaf, tot, 100)
@@ -274,10 +274,10 @@ def C07(tier):
     n = sz(tier, 300_000, 12_000_000)
     count = per_shard(n)
     p = [sz(tier, 300, 600), 20000]
-    runs = [run_workload(c, "float-rel", "rel", "drv_float", "c07", count, params=p)]
-    runs.append(run_workload(c, "float-asan", "asan", "drv_float", "c07", count, shards=[0, 1, 2, 3], params=p))
-    runs.append(run_workload(c, "float-dbg", "dbg", "drv_float", "c07", count, shards=[4, 5], params=p))
-    runs.append(run_workload(c, "float-clang", "clang", "drv_float", "c07", count, shards=[6, 7, 8, 9], params=p))
+    runs = [c.spec("float-rel", "rel", "drv_float", "c07", count, params=p)]
+    runs.append(c.spec("float-asan", "asan", "drv_float", "c07", count, shards=[0, 1, 2, 3], params=p))
+    runs.append(c.spec("float-dbg", "dbg", "drv_float", "c07", count, shards=[4, 5], params=p))
+    runs.append(c.spec("float-clang", "clang", "drv_float", "c07", count, shards=[6, 7, 8, 9], params=p))
     c.compare_digests(runs, "encoded bytes of every float array")
     for pr in ("FULL", "HIGH", "MEDIUM", "LOW"):
         for m in ("INDEPENDENT", "COMMON_EXPONENT", "DELTA_EXPONENT"):
@@ -295,3 +295,106 @@ def C07(tier):
              "among specials, sensor-like, extremes), each through all 4 precisions x 3 exponent modes and 3 EncodeAuto requests "
              "(log-uniform and between-mode-bound values); distinct by array hash, non-trivial = has a normal value with a "
              "non-zero mantissa; counted on rel")
+
+
+WRAP = dict(extra_src=("wrap_alloc.c",), extra_ld=("-Wl,--wrap=malloc,--wrap=calloc,--wrap=realloc,--wrap=free",))
+
+
+# --------------------------------------------------------------------------- C08
+def C08(tier):
+    c = Check("C08", tier)
+    n = sz(tier, 4000, 300_000)
+    count = per_shard(n)
+    c.spec("bitmap-rel", "rel", "drv_bitmap", "c08", count, build_kw=WRAP)
+    c.spec("bitmap-asan", "asan", "drv_bitmap", "c08", count, shards=sz(tier, [0, 1, 2], [0, 1, 2, 3]), build_kw=WRAP)
+    c.spec("bitmap-dbg", "dbg", "drv_bitmap", "c08", count, shards=[5], build_kw=WRAP)
+    for a, b in (("ARRAY", "BITMAP"), ("BITMAP", "ARRAY"), ("ARRAY", "RUNS"), ("BITMAP", "RUNS"), ("RUNS", "ARRAY"), ("RUNS", "BITMAP")):
+        c.require("transition.%s_to_%s" % (a, b), c.stat("transition.%s_to_%s" % (a, b)), 50)
+    for t in ("ARRAY", "BITMAP", "RUNS"):
+        c.require("decode_of_" + t, c.stat("c08_decode_of_" + t), 50)
+    c.require("long_range_on_nonempty", c.stat("c08_long_range_on_nonempty"), 200)
+    c.require("long_range_on_runs_container", c.stat("c08_long_range_on_runs_container"), 20)
+    c.require("set_algebra_ops", c.stat("c08_set_algebra_ops"), 5000)
+    c.assumptions = ["ranges are half-open [min,max) with max <= 65535 (uint16_t API)",
+                     "leak monitor: every block allocated during a history (link-time malloc wrapper) must be freed once all objects are freed"]
+    c.finish(c.stat("cases"), c.extra["per_cfg"].get("distinct_nontrivial@rel", 0),
+             "one history per case: 2-8 live objects, 50-400 operations from {Add, Remove, AddRange, RemoveRange, Clear, Clone, "
+             "AddMany, Or, And, Xor, AndNot, Encode->Decode, Free+Create}, values drawn from a ~4300-wide window so cardinality "
+             "crosses 4096 repeatedly, ranges > 4096 on non-empty and RUNS-typed objects; every step: return value, cardinality, "
+             "emptiness, memberships vs a 65536-bit model; array export + iteration on container change / every 8th step / "
+             "bulk ops; operands of binary ops re-checked; distinct = history (seeded), all non-trivial; counted on rel; "
+             "operations executed: %d" % c.stat("c08_operations"))
+
+
+# --------------------------------------------------------------------------- C09
+def C09(tier):
+    import math
+    import re
+    c = Check("C09", tier)
+    n = sz(tier, 111 * 4 * 400, 111 * 4 * 20000)
+    count = per_shard(n)
+    c.spec("packed-asan", "asan", "drv_packed", "c09", count)
+    c.spec("packed-rel", "rel", "drv_packed", "c09", count)
+    c.spec("packed-dbg", "dbg", "drv_packed", "c09", count, shards=[0, 1, 2, 3])
+    c.spec("packed-clang", "clang", "drv_packed", "c09", count, shards=[4, 5, 6, 7])
+    total = c.maxes.get("instantiations_total", 0)
+    c.require("instantiations_total", total, 106)
+    insts = sorted(k[5:] for k in c.stats if k.startswith("inst."))
+    missing = 0
+    for name in insts:
+        m = re.match(r"pk\w*_u(\d+)_(\d+)$", name)
+        sb, bits = int(m.group(1)), int(m.group(2))
+        if c.stat("inst." + name) < 8:
+            missing += 1
+            c.inconclusive.append("instantiation %s executed only %d times" % (name, c.stat("inst." + name)))
+        if bits <= sb and c.stat("oneslot." + name) < 5:
+            c.inconclusive.append("instantiation %s: one-slot path not exercised" % name)
+        if bits > math.gcd(bits, sb) and sb % bits != 0 and c.stat("twoslot." + name) < 5:
+            c.inconclusive.append("instantiation %s: two-slot path not exercised" % name)
+    c.must["instantiations_executed"] = dict(seen=len(insts) - missing, required=total)
+    if len(insts) < total:
+        c.inconclusive.append("only %d of %d instantiations reported" % (len(insts), total))
+    c.require("histories", c.stat("c09_histories"), 2000)
+    c.assumptions = ["legal instantiations: bits <= slotbits + gcd(bits, slotbits); compact only where bits > slotbits (DESIGN.md C09)",
+                     "values < 2^bits, SetIncr with non-negative increment and in-range result",
+                     "'accesses only the slots the element occupies' is observed for writes everywhere (whole-storage diff) and for reads at the ends of exact-size blocks (ASan)"]
+    c.finish(c.stat("cases"), c.extra["per_cfg"].get("distinct_nontrivial@rel", 0),
+             "configuration space enumerated exhaustively (%d instantiations: bits 1-32 x slot 8/16/32/64, compact and micro-promotion "
+             "variants); per instantiation: isolation sub-tests (Set/SetIncr/SetHalf at random and boundary positions over random prior "
+             "contents, whole-storage before/after diff against a bit-exact LSB-first model, exact-size storage) and sorted / positional "
+             "histories of 50-300 operations against a reference array; distinct = (instantiation, seeded sub-test), counted on rel" % total,
+             extra_cov=dict(exhaustive_over_configurations=True))
+
+
+# --------------------------------------------------------------------------- C10
+def C10(tier):
+    c = Check("C10", tier)
+    n = sz(tier, 60_000, 3_000_000)
+    count = per_shard(n)
+    p = [sz(tier, 0, 5000)]
+    c.spec("dim-asan", "asan", "drv_dimension", "c10", count, shards=list(range(8)), params=p)
+    c.spec("dim-rel", "rel", "drv_dimension", "c10", count, params=p)
+    c.spec("dim-dbg", "dbg", "drv_dimension", "c10", count, shards=[8, 9], params=p)
+    if HAVE_NATIVE:
+        c.spec("dim-native", "native", "drv_dimension", "c10", count, shards=list(range(8)), params=p)
+    else:
+        c.notes.append("half-float cells need F16C: -march=native configuration skipped on this cpu")
+    for a in range(9):
+        for b in range(1, 9):
+            c.require("widthpair.%d_%d" % (a, b), c.stat("widthpair.%d_%d" % (a, b)), 20)
+    kinds = ["bit", "u1", "u2", "u3", "u4", "u5", "u6", "u7", "u8", "float", "double"] + (["half"] if HAVE_NATIVE else [])
+    for k in kinds:
+        c.require("kind." + k, c.stat("kind." + k), 100)
+    for k in ("c10_bit_cleared_by_set_false", "c10_toggle_1_to_0", "c10_toggle_0_to_1", "c10_writes_row0", "c10_writes_last_cell", "c10_pack_refusals"):
+        c.require(k, c.stat(k), 500)
+    if tier == T:
+        c.require("wide_vector_writes", c.stat("c10_wide_vector_writes"), 100, "(bit vectors with > 2^32 columns, lazily mapped)")
+    else:
+        c.notes.append("column widths 5-8 are covered at header level in the quick tier; cell level (lazily mapped >2^32-column bit vectors) runs in the thorough tier")
+    c.assumptions = ["cols >= 1; Pack claims only pairs below 2^32", "byte cells behind 5-8 byte column counts cannot be backed by memory; covered by headers and bit vectors"]
+    c.finish(c.stat("cases"), c.extra["per_cfg"].get("distinct_nontrivial@rel", 0),
+             "cases cycle through pack/unpack pairs (nibble boundaries, >= 2^32 refusals), all 72 header width combinations "
+             "(exhaustive over widths, min/max/random values of each width, exact-size destination) and matrices (vector, 1x1, 1xn, "
+             "nx1, 2- and 3-byte column counts, 2-byte row counts, random <= 40x40) of every entry kind with 100-500 writes each, "
+             "whole-buffer before/after comparison against the documented layout; distinct = seeded case, counted on rel",
+             extra_cov=dict(exhaustive_over_header_width_pairs=True))
